@@ -15,3 +15,4 @@ pub(crate) mod easyv;
 pub(crate) mod serdev;
 pub(crate) mod allocv;
 pub(crate) mod simdstubs;
+pub(crate) mod hexsimd;
